@@ -275,6 +275,13 @@ def model_save_quantized_weights(model, filename=None, custom_objects={}):
       elif any(isinstance(layer, t) for t in [QSimpleRNN, QLSTM, QGRU]):
         qs = layer.get_quantizers()[:-1]
         ws = layer.get_weights()
+      elif isinstance(layer, QBidirectional):
+        # Each direction lists [kernel, recurrent, bias, state] quantizers but
+        # holds only [kernel, recurrent(, bias)] weights.
+        qs = []
+        for rnn in (layer.forward_layer, layer.backward_layer):
+          qs += rnn.get_quantizers()[:len(rnn.get_weights())]
+        ws = layer.get_weights()
       else:
         qs = layer.get_quantizers()
         ws = layer.get_weights()
